@@ -1,15 +1,18 @@
 #!/bin/sh
-# Re-run every stored seed against the check(s) that are recorded as catching it (quick tier).
+# Re-run every stored seed against the check(s) recorded as catching it (quick tier).
 # usage: ./recheck_all.sh [seed-id ...]   (default: all)   -> out/recheck_all.log
+#   FIRST_ONLY=1: only the first check recorded as catching the seed
 cd /verif || exit 2
 mkdir -p out
 seeds="$@"
 [ -z "$seeds" ] && seeds=$(ls seeded)
 for s in $seeds; do
   checks=$(python3 -c "
-import json
+import json,os
 m=json.load(open('/verif/seeded/$s/meta.json'))
-print(' '.join(k for k,v in m.get('checks',{}).items() if v.get('exit')==1) or '$s'[:3])")
+c=[k for k,v in m.get('checks',{}).items() if v.get('exit')==1] or ['$s'[:3]]
+if os.environ.get('FIRST_ONLY'): c=c[:1]
+print(' '.join(c))")
   python3 seedtest.py --recheck $s $checks 2>&1 | tail -1
 done | tee out/recheck_all.log
 git -C /repo status --porcelain
